@@ -7,6 +7,7 @@ every generated table) implies the theorems below about `run A` — the model of
 -/
 import Emboss.Lemmas.Lr1Examples
 import Emboss.Lemmas.Lr1Fast
+import Emboss.Lemmas.Lr1Term
 namespace Emboss.Lr1
 
 /-- **The compiled validator decides `Valid`.**  `validFast` (hash-set membership; what the
@@ -61,14 +62,39 @@ theorem C08_accepts_iff {G : Grammar} {A : Automaton} {C : Cert} (hv : Valid G A
     let ⟨f, hf⟩ := C08_complete hv hd
     ⟨f, hf f (Nat.le_refl _)⟩⟩
 
-/- Full statement (NOT proved):
-     theorem C08_terminates (hv : Valid G A C) (w : List Token) : ∃ fuel, run A fuel w ≠ .outOfFuel
-   Missing: termination of runs that end in an error (an infinite sequence of reductions at a fixed
-   input position would have to be excluded through the absence of cyclic derivations).  Proved
-   fragment: -/
-/-- Accepting runs terminate (from completeness); for rejected inputs termination of the model
-run is not proved here: see `C08_error_position`, which is conditional on an error result. -/
-theorem C08_terminates_partial {G : Grammar} {A : Automaton} {C : Cert} (hv : Valid G A C)
+/-- **Termination (accepted and rejected inputs).**  `TermOK A` is the decidable termination
+analysis of Model/Lr1Term.lean (run by the driver on every dumped table, op `LRTERM`: for every
+state, successor state and row key it executes the chain of reductions the table prescribes at
+a fixed cursor and checks that it comes to a Shift/Accept/Error or pops below its starting
+point).  Over a table that passes, `Parser.parse` halts on **every** token list: there is a
+step budget with which the model run returns a result (accept, syntax error, or a Python
+exception) instead of running out of fuel.  Measure: (tokens left, stack height).
+
+`Valid` alone does not imply this — a certificate may carry a FIRST table that is closed but not
+least, and then validates tables with spurious ε-reductions that loop on a lookahead no
+sentence can have (e.g. `S → a | A c; A → B A; B → ε` with `c ∈ FIRST(A)`: the state reached
+over `B` reduces `B → ε` on `c` and returns to itself) — hence the separate, checked hypothesis. -/
+theorem C08_terminates {A : Automaton} (hT : TermOK A) (w : List Token) :
+    ∃ fuel, run A fuel w ≠ .outOfFuel :=
+  run_terminates hT w
+
+/-- **Total correctness.**  Over tables that validate and pass the termination analysis every
+token list is decided: with enough fuel the run either accepts with a derivation of `w`, or
+reports a syntax error, and then `w` is not a sentence. -/
+theorem C08_decides {G : Grammar} {A : Automaton} {C : Cert} (hv : Valid G A C) (hT : TermOK A)
+    (w : List Token) :
+    ∃ fuel, (∃ t, run A fuel w = .accept t ∧ Derives G t w) ∨
+      (∃ code i s e, run A fuel w = .error code i s e ∧ ¬ Sentence G w) := by
+  obtain ⟨fuel, hf⟩ := C08_terminates hT w
+  refine ⟨fuel, ?_⟩
+  cases hr : run A fuel w with
+  | accept t => exact Or.inl ⟨t, rfl, C08_sound hv hr⟩
+  | error code i s e => exact Or.inr ⟨code, i, s, e, rfl, no_sentence_of_error hv hr (fun _ _ => rfl)⟩
+  | internal m => exact absurd hr (C08_safe hv w fuel m)
+  | outOfFuel => exact absurd hr hf
+
+/-- Accepting runs terminate also without the analysis (from completeness). -/
+theorem C08_terminates_accepting {G : Grammar} {A : Automaton} {C : Cert} (hv : Valid G A C)
     {w : List Token} (hs : Sentence G w) : ∃ fuel t, run A fuel w = .accept t := by
   obtain ⟨t, hd⟩ := hs
   obtain ⟨f, hf⟩ := run_complete hv hd
@@ -107,6 +133,9 @@ example : run exA 20 [⟨5, 0⟩, ⟨5, 1⟩] = .error none 2 3 [4, 5] := by dec
 -- end-of-input marker (code 0) is a syntax error at its own index, not "accept what came before"
 example : run exA 60 [⟨5, 0⟩, ⟨0, 1⟩, ⟨5, 2⟩] = .error none 1 3 [4, 5] := exRun3
 example : run exA 60 [⟨5, 0⟩, ⟨4, 1⟩, ⟨0, 2⟩] = .error none 2 4 [0] := exRun5
+-- test: the example tables (regenerated from the real code) pass the termination analysis
+example : TermOK exA := by decide
+example : TermOK f10A := by decide
 example : Reduced exG :=
   ⟨by
     have hA : Productive exG 3 := ⟨.node ⟨3, []⟩ [], ParseTree.node _ _ (by decide) (by simp) rfl, rfl⟩
